@@ -27,6 +27,11 @@ def load(prop):
 
 
 def match(known, case, rr):
+    obs = rr.get("observed") or {}
+    neutral = obs.get("neutral")
+    if neutral is not None and neutral.get("violates"):
+        # the document also fails with its in-band characters neutralised: classify that failure
+        return match([e for e in known if e["matcher"] != "inband_char"], case, neutral)
     for e in known:
         fn = MATCHERS.get(e["matcher"])
         if fn is None:
@@ -77,3 +82,30 @@ def hang_on_doc(case, rr, doc_regex=None):
     mod = import_module(case["real_module"])
     doc = mod.doc_of(case)
     return bool(re.search(doc_regex, doc, re.S))
+
+
+@matcher
+def inband_char(case, rr):
+    """The document contains a character pymarkdown reserves as an in-band marker, and the same
+    document with those characters replaced by 'x' does not violate."""
+    obs = rr.get("observed") or {}
+    n = obs.get("neutral")
+    return n is not None and not n.get("violates")
+
+
+@matcher
+def roundtrip_diff(case, rr, doc_regex=None, diff_regex=None, detab_equal=None):
+    """Round-trip difference of a given shape on a document of a given shape."""
+    import re
+
+    obs = rr.get("observed") or {}
+    doc, regen = obs.get("doc"), obs.get("regen")
+    if doc is None or regen is None:
+        return False
+    if doc_regex and not re.search(doc_regex, doc, re.S):
+        return False
+    if diff_regex and not re.fullmatch(diff_regex, obs.get("diff", ""), re.S):
+        return False
+    if detab_equal and not ("\t" in doc and regen.expandtabs(4) == doc.expandtabs(4)):
+        return False
+    return True
